@@ -71,6 +71,13 @@ def requests(ctx):
             inputs.append(pre + b"$" + c.upper() + b" x $end")
             inputs.append(pre + b"$" + c[:-1] + b" x $end")
             inputs.append(pre + b"$" + c + b"x y $end")
+    # long first commands / long leading white space (detection must not give up after a fixed number of bytes)
+    for n in (100, 1000, 1018, 1019, 1020, 1023, 1024, 1025, 2000, 4095, 4096, 5000, 70000):
+        inputs.append(b"$comment " + b"x" * n + b" $end\n$enddefinitions $end\n")
+        inputs.append(b"$version\n" + b"word " * (n // 5) + b"\n$end\n")
+        inputs.append(b" " * n + b"$date today $end\n")
+        inputs.append(b"\n" * n + b"$timescale 1ns $end\n$enddefinitions $end\n#0\n")
+        inputs.append(b"$comment " + b"x" * n)
     # GHW header variants
     for i in range(9, 16):
         for v in (0, 1, 2, 3, 16, 255):
